@@ -123,7 +123,8 @@ class Controller(object):
         msg = msg.strip()
 
         if not msg:
-            self.send_response(None, cid, msg, "error: empty command")
+            self.send_error(None, cid, msg, "empty command",
+                            errno=errors.INVALID_JSON)
         else:
             logger.debug("got message %s", msg)
             self.dispatch((cid, msg))
